@@ -134,6 +134,16 @@ Theorem C08_consensus_benchmark1_between_data_sources : forall ss f v, senders1_
 Proof. exact consensus_benchmark1_between_data_sources. Qed.
 Print Assumptions C08_consensus_benchmark1_between_data_sources.
 
+(* v1 consensus block: with at most f faulty senders it is a block that some correct node's data source listed (the parser
+   keeps only observations without duplicate block numbers: parse1_nodup) *)
+Theorem C08_consensus_block_from_a_correct_data_source : forall ss f b, senders1_ok ss ->
+  (length (filter (fun s => negb (is_correct1 s)) ss) <= f)%nat ->
+  let tobs := map (fun pt => (q_blocks (fst pt), snd pt)) (received_v1 ss) in
+  latest_block (map fst tobs) f = Ok b ->
+  exists n pn d, In (Correct1 n pn d) ss /\ In b (obs_blocks (d1_blocks d, if cur1_valid d then Some (cur1 d) else None)).
+Proof. exact consensus_block_from_a_correct_data_source. Qed.
+Print Assumptions C08_consensus_block_from_a_correct_data_source.
+
 Theorem C08_consensus_link_fee_between_computed_fees : forall ver base ss f v,
   ver = 2 \/ ver = 3 \/ ver = 4 -> senders_ok ss ->
   let txs := map (fun pt => (p_link (fst pt), snd pt)) (received ver base ss) in
